@@ -126,7 +126,7 @@ async fn main() -> Result<(), Terminator> {
     {
         let st_mut = Arc::get_mut(&mut state).unwrap();
         let ctx_mut = Arc::get_mut(&mut st_mut.contexts).unwrap();
-        ctx_mut.default_timeout = st_mut.timeouts.idle;
+        ctx_mut.default_timeout = cfg.timeouts.idle;
 
         st_mut.timeouts = cfg.timeouts;
         st_mut.listeners = listeners::from_config(&cfg.listeners)?;
